@@ -511,6 +511,20 @@ func runCase(c Case, o *vh.Obs) *vh.Failure {
 	} else {
 		m = build(c)
 	}
+	// another solid of the same family with other parameters is built before this one is judged: a
+	// mesh that was returned stays what it was (no storage shared between two results)
+	other := c
+	other.R, other.H, other.W, other.D = c.R*1.5, c.H*0.75, c.W*2, c.D*0.5
+	if c.Rows > 0 {
+		other.Rows = c.Rows + 1
+	}
+	if c.Cols > 0 {
+		other.Cols = c.Cols + 2
+	}
+	if other.admissible() && c.Rows < 300 && c.Cols < 300 {
+		oracle.Try(func() { build(other) })
+		o.Class("judged-after-another-solid-was-built")
+	}
 	switch c.Family {
 	case famSphere, famSphereUnw, famHemisphere:
 		if c.Rows >= 3 {
@@ -973,4 +987,5 @@ func TestC18(t *testing.T) {
 	vh.Enumerate(t, vh.Spec[ConvCase]{Name: "convergence-grid", Run: runConv}, convGrid())
 	vh.Drive(t, vh.Spec[Case]{Name: "sampled", Quick: 12000, Thorough: 360000, Gen: genCase, Run: runCase})
 	vh.Drive(t, vh.Spec[ConvCase]{Name: "convergence", Quick: 4000, Thorough: 120000, Gen: genConv, Run: runConv})
+	vh.Drive(t, vh.Spec[vh.Conc[Case]]{Name: "concurrent-builders", Quick: 300, Thorough: 10000, Gen: vh.GenConc(genCase), Run: vh.RunConc(runCase), Repeat: 20})
 }
